@@ -4,8 +4,14 @@ log = {}
 first = {}
 for line in open('/verif/build/mutants.log'):
     d = json.loads(line)
-    first.setdefault(d['mutant'], d)
-    log[d['mutant']] = d          # later lines (re-runs) win
+    name = d['mutant']
+    if name[-1] in "rx" and name[:-1][-1].isdigit():      # <id>r = re-run after the machinery was extended
+        name = name[:-1]
+        d = dict(d, mutant=name)
+    if 'check' not in d and name in log and 'check' in log[name]:
+        continue
+    first.setdefault(name, d)
+    log[name] = d          # later lines (re-runs) win
 STRENGTHENED = {
     "C01_2": "missed at first (every family built its automaton once and never edited it); added condition c01_edit "
              "(query, remove_transition, query again)",
@@ -43,6 +49,33 @@ STRENGTHENED = {
     "C19_3": "missed in the native dry-run (no subject with a nullable variable that does not generate epsilon); "
              "caught after the subject S -> A b, A -> a | eps was added",
     "C20_1": "missed in the native dry-run (no falsy symbol); caught after the symbols 0 and '' were added",
+    # ---- second round (groups H-L) ----
+    "C01_3": "missed at first (Hopcroft's pending list matters from 5 states over 2 symbols on; C01 had no such DFA); "
+             "added condition c01_dfa5 and permutation a-rows to c02_minimal_52 (the same change, filed under C02 "
+             "as C02_3, was caught as first built)",
+    "C01_4": "NOT a valid seeded change: with the patch the repository's own test_remove_epsilon_transitions fails under "
+             "some hash seeds (1 run in 3); kept for the record, not counted",
+    "C03_4": "needs an operand that is used, edited and used again; condition c03_reuse was written after reading the "
+             "change's description and before the first run (the earlier C03 conditions build every operand once)",
+    "C04_4": "needs remove_transition before the query; condition c04_edit was written after reading the description "
+             "and before the first run",
+    "C05_4": "missed at first: the C05 oracle never flagged ill-formed text that is accepted; it now does for "
+             "unambiguous defects (RX.must_refuse, DESIGN 2.3)",
+    "C07_3": "missed at first (the pattern ([ab]){2} was not in a quick slice); the prefixes '((' and '([ab]' were added "
+             "to the quick shards of c07_tokens4",
+    "C07_4": "missed at first (no escaped parenthesis in the quick token table); the token \\) was added",
+    "C08_4": "needs two bodies of length 4 sharing a tail; condition c08_b4s was written after reading the description "
+             "and before the first run (the same family existed for C09 as c09_b4s)",
+    "C09_4": "missed at first (needs input variables named C#CNF#1, C#CNF#2); added condition c09_names, whose native "
+             "dry-run also exposed the genuine defect fixed in 89c4150",
+    "C10_4": "needs a non-start variable called #STARTCLOS#; the name sets {S,#STARTCLOS#} / {S,#STARTCONC#} were added "
+             "after reading the description and before the first run",
+    "C11_4": "needs a regular operand whose DFA has more states than the PDA; condition c11_pda_dfa3 was added after the "
+             "native dry-run of the existing families missed it, before the first CrossHair run",
+    "C12_4": "needs a body of length 3 with a repeated symbol; condition c12_b3 was added after the native dry-run of the "
+             "existing families missed it, before the first CrossHair run",
+    "C19_4": "missed at first (no history edited the automaton itself); added condition c19_fa_edit",
+    "C20_5": "C20 had no transducer condition; c20_fst was written after reading the description and before the first run",
 }
 root = '/verif/build/muts'
 out = '/verif/seeded'
@@ -70,6 +103,7 @@ for name in sorted(os.listdir(root)):
         "needs_to_manifest": meta.get('needs'),
         "files_changed": meta.get('files_changed'),
         "origin": "written by a sub-agent that saw only the property text and a scratch worktree of /repo (nothing from /verif)",
+        "round": 2 if os.path.exists(os.path.join(src, 'group.txt')) else 1,
         "adapted": meta.get('adapted'),
         "confirmed_by_me": {
             "how": "tools_mut.py confirm: scratch worktree of /repo HEAD; demo.py on the clean tree must exit 0; with patch.diff "
